@@ -2,6 +2,7 @@
    Objects: coq/Model/Penalties.v (executable model of pygam/penalties.py and *.build_penalties), real instance. *)
 From Coq Require Import List Reals.
 From PG Require Import Base.Ops Base.Vec Model.Penalties Proofs.VecR Proofs.C04 Proofs.C04b Proofs.C04Transfer.
+From PG Require Import Proofs.C04Kron Proofs.C04Kron2 Proofs.C04Kron3.
 Import ListNotations.
 Open Scope R_scope.
 
@@ -58,12 +59,58 @@ Proof. exact margin_penalty_sum. Qed.
 Print Assumptions C04_term_sum.
 
 (* Kronecker lift I_p (x) B acts on the p consecutive length-q chunks of the coefficient vector (C order, last axis).
-   PARTIAL: the general k-way statement (lift of marginal i = sum over all axis-i fibres) is proved only for this
-   last-axis lift; the other axes and the left-to-right fold of scipy.sparse.kron are covered by correspondence. *)
+   NOW SUBSUMED by the general k-way theorems C04_tensor_kron_lift / C04_tensor_penalty_quadform below (every axis,
+   any number of marginals, the left-to-right fold of scipy.sparse.kron included); kept, under its old name, only as
+   the last-axis special case -- nothing is missing any more. *)
 Theorem C04_tensor_kron_last_axis_partial : forall B q p v, square B q -> length v = (p * q)%nat ->
   quadR (kron Rrops (identR p) B) v = quad_chunks B q p v.
 Proof. exact kron_ident_l_quad. Qed.
 Print Assumptions C04_tensor_kron_last_axis_partial.
+
+(* GENERAL k-way tensor penalty (TensorTerm.build_penalties / _build_marginal_penalties), any list of marginals ms.
+   Coefficients are in C order (last marginal fastest).  `fibres 0 dims i v` (Proofs/C04Kron2.v, executable) lists the
+   axis-i fibres of v: with p = prod_{j<i} n_j, n = n_i, q = prod_{j>i} n_j, the sub-vectors
+   v[a n q + c], v[a n q + c + q], ... (n entries, stride q) for a < p, c < q.
+   (a) the lift of marginal i -- kron, left to right, of (P_i at position i, identities elsewhere) -- has as quadratic
+       form the sum over all axis-i fibres of the marginal penalty's quadratic form *)
+Theorem C04_tensor_kron_lift : forall (ms : list (@margin R)) i m v,
+  nth_error ms i = Some m -> margin_ok m -> length v = tensor_n ms ->
+  quadR (marginal_lift Rrops ms i) v
+  = vsumR (map (quadR (margin_penalty Rrops m)) (fibres 0 (map (@m_n R) ms) i v)).
+Proof. exact tensor_kron_lift_nth. Qed.
+Print Assumptions C04_tensor_kron_lift.
+(* sanity of the fibre decomposition (any element type): count, lengths, and the fibres together rearrange v *)
+Theorem C04_fibres_count : forall (A : Type) (d : A) dims i v, (i < length dims)%nat -> nth i dims O <> O ->
+  length (fibres d dims i v) = (prod_dims dims / nth i dims O)%nat.
+Proof. exact @fibres_count_div. Qed.
+Print Assumptions C04_fibres_count.
+Theorem C04_fibres_lengths : forall (A : Type) (d : A) dims i v,
+  Forall (fun f => length f = nth i dims O) (fibres d dims i v).
+Proof. exact @fibres_lengths. Qed.
+Print Assumptions C04_fibres_lengths.
+Theorem C04_fibres_permutation : forall (A : Type) (d : A) dims i v, (i < length dims)%nat -> length v = prod_dims dims ->
+  Permutation.Permutation (concat (fibres d dims i v)) v.
+Proof. exact @fibres_perm. Qed.
+Print Assumptions C04_fibres_permutation.
+(* (b) the tensor penalty (the model's fold of madd over the axes) has as quadratic form the sum over the axes of
+       the fibre sums (fibre_sum ms i v is the right-hand side of (a) with m = the i-th marginal) *)
+Theorem C04_tensor_penalty_quadform : forall (ms : list (@margin R)) v, Forall margin_ok ms -> length v = tensor_n ms ->
+  quadR (tensor_penalty Rrops ms) v = vsumR (map (fun i => fibre_sum ms i v) (seq 0 (length ms))).
+Proof. exact tensor_penalty_quadform. Qed.
+Print Assumptions C04_tensor_penalty_quadform.
+(* hence: the tensor penalty is symmetric PSD when every marginal penalty is ... *)
+Theorem C04_tensor_penalty_sym_psd : forall (ms : list (@margin R)), Forall margin_ok ms ->
+  Forall (fun m => bisym (margin_penalty Rrops m) (m_n m) /\ psd (margin_penalty Rrops m) (m_n m)) ms ->
+  bisym (tensor_penalty Rrops ms) (tensor_n ms) /\ psd (tensor_penalty Rrops ms) (tensor_n ms).
+Proof. exact tensor_penalty_sym_psd. Qed.
+Print Assumptions C04_tensor_penalty_sym_psd.
+(* ... which is the case whenever all lam are non-negative (every penalty matrix of the model, the code's cyclic one
+   included, is symmetric PSD); the tensor penalty is also tensor_n x tensor_n *)
+Theorem C04_tensor_penalty_sym_psd_lam : forall (ms : list (@margin R)), Forall margin_ok ms -> Forall lam_nonneg ms ->
+  square (tensor_penalty Rrops ms) (tensor_n ms) /\
+  bisym (tensor_penalty Rrops ms) (tensor_n ms) /\ psd (tensor_penalty Rrops ms) (tensor_n ms).
+Proof. exact tensor_penalty_sym_psd_lam. Qed.
+Print Assumptions C04_tensor_penalty_sym_psd_lam.
 
 (* the model penalty is block diagonal in term order: its quadratic form is the sum of the blocks' forms on the
    corresponding coefficient slices (the intercept block is [[0]]) *)
